@@ -33,6 +33,7 @@ type c07Case struct {
 	Place    []string    `json:"placements"`      // per new resource
 	Metas    []string    `json:"metas,omitempty"` // per new resource: ownership metadata its template renders
 	NS       []string    `json:"ns,omitempty"`    // per new resource: namespace ("" = the release namespace)
+	Intr     string      `json:"intr,omitempty"`  // check-to-create race in the step under test: get404 post get404-hook post-hook
 	Test     int         `json:"test"`            // index of the step under test
 }
 
@@ -226,7 +227,19 @@ func (*c07) Oracle(ci, oi any) []hx.Violation {
 			if t.SWrites != 0 {
 				add("C07:storage-write-before-refusal", fmt.Sprintf("%s: %d storage write(s) although %v exist and are not owned", what, t.SWrites, blocked))
 			}
-			if !reflect.DeepEqual(o.Before, t.Objs) {
+			after := t.Objs
+			if op.Intr != nil && t.IntrFired {
+				// what the OTHER actor of a race created during the look-up is not Helm's change
+				if _, had := o.Before[op.Intr.Obj.Key()]; !had && reflect.DeepEqual(t.Objs[op.Intr.Obj.Key()], op.Intr.Obj.Fields) {
+					after = map[string]map[string]string{}
+					for k, v := range t.Objs {
+						if k != op.Intr.Obj.Key() {
+							after[k] = v
+						}
+					}
+				}
+			}
+			if !reflect.DeepEqual(o.Before, after) {
 				add("C07:objects-changed-on-refusal", what+": cluster objects changed")
 			}
 			if !c07LedgerEq(o.LedgB, t.Ledger) {
@@ -261,6 +274,9 @@ func (*c07) Oracle(ci, oi any) []hx.Violation {
 		if had && reflect.DeepEqual(before, after) {
 			continue
 		}
+		if op.Intr != nil && k == op.Intr.Obj.Key() && reflect.DeepEqual(after, op.Intr.Obj.Fields) {
+			continue // put there by the other actor of a race, not by Helm (clause 7)
+		}
 		if !c07Owned(after) {
 			add("C07:written-without-ownership-metadata", fmt.Sprintf("%s created or updated %s without the managed-by label / release annotations: %v", what, k, after))
 		}
@@ -288,6 +304,8 @@ func (*c07) Oracle(ci, oi any) []hx.Violation {
 	c07StampOracle(c, o, add)
 	// 6. request level: every resource to be newly created is looked up before the first mutating request
 	c07PreflightOracle(c, o, add)
+	// 7. check-to-create races: a foreign object that appeared in the middle of the operation is not taken over
+	c07RaceOracle(c, o, add)
 	return vs
 }
 
@@ -305,7 +323,7 @@ var c07Abbrev = strings.NewReplacer(
 
 func (*c07) CoqCase(ci, oi any) string {
 	o := oi.(c07Obs)
-	return c07Abbrev.Replace(fmt.Sprintf("mkC7 (%s)\n  %s\n  %s", eng.CoqCase(ci.(c07Case).H, o.Obs), c07CoqStamps(o.Stamps), c07CoqLogs(ci.(c07Case), o)))
+	return c07Abbrev.Replace(fmt.Sprintf("mkC7 (%s)\n  %s\n  %s\n  %s", eng.CoqCase(ci.(c07Case).H, o.Obs), c07CoqStamps(o.Stamps), c07CoqLogs(ci.(c07Case), o), c07CoqIntr(ci.(c07Case))))
 }
 
 func (*c07) Class(ci, oi any) string {
@@ -340,6 +358,9 @@ func (*c07) Class(ci, oi any) string {
 			cls += "/2ns"
 			break
 		}
+	}
+	if c.Intr != "" {
+		cls += "/race:" + c.Intr
 	}
 	return cls
 }
